@@ -610,6 +610,11 @@ pub fn damage(ren: &Rendering, fragment: bool) -> Vec<(String, usize, String)> {
         out.push(("undeclared-prefix-attribute".into(), e.attrs_at, ins(e.attrs_at, " und:k='v'")));
         out.push(("attribute-twice-by-qname".into(), e.attrs_at, ins(e.attrs_at, " dup='1' dup='2'")));
         out.push(("attribute-twice-by-expanded-name".into(), e.attrs_at, ins(e.attrs_at, " xmlns:d1='urn:dup' xmlns:d2='urn:dup' d1:k='1' d2:k='2'")));
+        // ... also where the one expanded name is reached through a prefix bound to the empty namespace name (which the crate
+        // takes for "no namespace") and through no prefix at all, in either order
+        out.push(("attribute-twice-by-expanded-name-empty-uri-prefix".into(), e.attrs_at, ins(e.attrs_at, " xmlns:d0='' d0:k='1' k='2'")));
+        out.push(("attribute-twice-by-expanded-name-empty-uri-prefix".into(), e.attrs_at, ins(e.attrs_at, " k='1' xmlns:d0='' d0:k='2'")));
+        out.push(("attribute-twice-by-expanded-name-default-is-no-help".into(), e.attrs_at, ins(e.attrs_at, " xmlns:d1='urn:dup' d1:k='1' xmlns:d2='urn:dup' d2:k='2' k='3' xmlns='urn:dup'")));
         out.push(("prefix-declared-twice".into(), e.attrs_at, ins(e.attrs_at, " xmlns:dd='urn:u1' xmlns:dd='urn:u2'")));
         out.push(("default-namespace-declared-twice".into(), e.attrs_at, ins(e.attrs_at, " xmlns='urn:u1' xmlns='urn:u1'")));
         out.push(("raw-lt-in-attribute".into(), e.attrs_at, ins(e.attrs_at, " lt='a<b'")));
